@@ -220,6 +220,9 @@ type Explorer struct {
 	OnInstr func(in ssa.Instruction, st *PState) bool
 	// Outcomes optionally gives the abstract outcomes of a call (forking the path).
 	Outcomes func(call ssa.CallInstruction, st *PState) []Outcome
+	// LookupOutcomes optionally forks on the outcome of a comma-ok map lookup
+	// (Results = facts for (value, ok)).
+	LookupOutcomes func(lk *ssa.Lookup, st *PState) []Outcome
 	// OnReturn is called at each Return with the state.
 	OnReturn func(ret *ssa.Return, st *PState)
 	// OnEdge is called when a CFG edge is taken.
@@ -549,6 +552,19 @@ func (e *Explorer) execBlock(b *ssa.BasicBlock, start int, st *PState) {
 			if ts, ok := st.tuple[x.Tuple]; ok && x.Index < len(ts) && ts[x.Index] != TriUnknown {
 				st.env[x] = ts[x.Index]
 			}
+		case *ssa.Lookup:
+			// v, ok := m[k]: a rule may fork on the outcome of the lookup
+			if x.CommaOk && e.LookupOutcomes != nil {
+				if outs := e.LookupOutcomes(x, st); len(outs) > 0 {
+					for _, o := range outs {
+						ns := st.clone()
+						ns.Flags |= o.Flags
+						ns.tuple[x] = o.Results
+						e.push(b, i+1, ns)
+					}
+					return
+				}
+			}
 		case *ssa.Call:
 			for _, arg := range x.Common().Args {
 				if al, ok := st.Canon(arg).(*ssa.Alloc); ok {
@@ -721,6 +737,11 @@ type Summarizer struct {
 	Follow func(fn *ssa.Function) bool
 	// Combine merges the caller's flags with the flags of one callee outcome (default: OR).
 	Combine func(caller, callee uint64) uint64
+	// LookupOutcomes is installed on every explorer created by the summarizer.
+	LookupOutcomes func(lk *ssa.Lookup, st *PState) []Outcome
+	// TraceMap, when set, rewrites a callee's trace in the context of the call (e.g. to
+	// classify events that depend on what the caller passed in).
+	TraceMap func(call ssa.CallInstruction, st *PState, calleeTrace string) string
 	// EdgeFilter is installed on every explorer created by the summarizer.
 	EdgeFilter func(from, to *ssa.BasicBlock, st *PState) bool
 	// ClearFlagsOnReturn drops the (function-local) flags from return outcomes.
@@ -817,6 +838,9 @@ func (s *Summarizer) Explorer(fn *ssa.Function) *Explorer {
 		var outs []Outcome
 		for _, r := range sum {
 			o := Outcome{Results: r.Results, Flags: r.Flags, Trace: r.Trace}
+			if s.TraceMap != nil {
+				o.Trace = s.TraceMap(call, st, r.Trace)
+			}
 			if s.Combine != nil {
 				o.Flags = s.Combine(st.Flags, r.Flags)
 				o.Replace = true
@@ -829,6 +853,7 @@ func (s *Summarizer) Explorer(fn *ssa.Function) *Explorer {
 		ex.OnInstr = func(in ssa.Instruction, st *PState) bool { return s.OnInstr(fn, in, st) }
 	}
 	ex.EdgeFilter = s.EdgeFilter
+	ex.LookupOutcomes = s.LookupOutcomes
 	return ex
 }
 
